@@ -35,23 +35,35 @@ func TestMain(m *testing.M) {
 type cAli struct {
 	Rows     []gen.Row `json:"rows"`
 	Comments []string  `json:"comments"`
-	Alphabet string    `json:"alphabet"` // nt | aa
+	Alphabet string    `json:"alphabet"` // nt | aa: the letters the rows are drawn from
+	Declared string    `json:"declared"` // "" (same as Alphabet) | "unknown" (align.UNKNOWN, never auto-detected) | "aa" (protein declared over nucleotide looking letters)
 	Bag      bool      `json:"bag"`      // a sequence set (rows of different lengths)
 }
 
 func alphabetCode(s string) int {
-	if s == "aa" {
+	switch s {
+	case "aa":
 		return align.AMINOACIDS
+	case "unknown":
+		return align.UNKNOWN
 	}
 	return align.NUCLEOTIDS
+}
+
+// declared gives the alphabet the container is created with
+func (a cAli) declared() string {
+	if a.Declared != "" {
+		return a.Declared
+	}
+	return a.Alphabet
 }
 
 func buildContainer(a cAli) align.SeqBag {
 	var sb align.SeqBag
 	if a.Bag {
-		sb = align.NewSeqBag(alphabetCode(a.Alphabet))
+		sb = align.NewSeqBag(alphabetCode(a.declared()))
 	} else {
-		sb = align.NewAlign(alphabetCode(a.Alphabet))
+		sb = align.NewAlign(alphabetCode(a.declared()))
 	}
 	for i, r := range a.Rows {
 		if err := sb.AddSequence(r.Name, r.Seq, a.Comments[i]); err != nil {
@@ -117,6 +129,16 @@ func (a snap) diff(b snap) string {
 	return ""
 }
 
+// inconsistent: every row seen by index must be the row its name leads to
+func (a snap) inconsistent() string {
+	for i, r := range a.Rows {
+		if !r.ByNameOK || r.ByName != r.Seq {
+			return fmt.Sprintf("row %d (%s) holds %q, GetSequence(%q) gives %q,%v", i, r.Name, r.Seq, r.Name, r.ByName, r.ByNameOK)
+		}
+	}
+	return ""
+}
+
 // ---- generators ----------------------------------------------------------------------------------
 
 const ntChars = "ACGTACGTNRYacgtn-"
@@ -150,6 +172,33 @@ func genContainer(t *rapid.T, alphabet string, bag bool, maxRows, maxLen int) cA
 			chars = gen.AA20
 		} else {
 			chars = "ACGT"
+		}
+	}
+	// RNA letters, and characters that belong to no alphabet: many queries refuse them - the
+	// input must be unchanged whether the call succeeds or fails
+	switch rapid.IntRange(0, 9).Draw(t, "oddchars") {
+	case 0:
+		if alphabet == "nt" {
+			chars += "Uu"
+		} else {
+			chars += "UOJ"
+		}
+	case 1:
+		chars += "?!.*"
+		if alphabet == "nt" {
+			chars += "UuEQ"
+		} else {
+			chars += "Jo#"
+		}
+	}
+	// the declared alphabet: mostly the one of the letters; sometimes UNKNOWN (never auto-detected)
+	// or protein declared over letters that are nucleotide codes too
+	switch rapid.IntRange(0, 9).Draw(t, "declared") {
+	case 0:
+		a.Declared = "unknown"
+	case 1:
+		if alphabet == "nt" {
+			a.Declared = "aa"
 		}
 	}
 	// names in a drawn order (an operation that sorts would move rows), of different lengths
